@@ -1363,7 +1363,10 @@ class FakeSocket:
             return 1
 
     @command((Key(set),), (Int,))
-    def spop(self, key, count=None):
+    def spop(self, key, *args):
+        if len(args) > 1:
+            raise SimpleError(msgs.SYNTAX_ERROR_MSG)
+        count = args[0] if args else None
         if count is None:
             if not key.value:
                 return None
@@ -1381,7 +1384,10 @@ class FakeSocket:
             return items
 
     @command((Key(set),), (Int,))
-    def srandmember(self, key, count=None):
+    def srandmember(self, key, *args):
+        if len(args) > 1:
+            raise SimpleError(msgs.SYNTAX_ERROR_MSG)
+        count = args[0] if args else None
         if count is None:
             if not key.value:
                 return None
